@@ -197,7 +197,7 @@ def apply_revert(d: str, commit: str) -> None:
 
 
 def run_check(prop: str, d: str, budget: float, seed: int) -> (int, str):
-    env = dict(os.environ, DSIM_SRC=os.path.join(d, "src"), PYTHONPATH=os.path.join(d, "src"), PYTHONHASHSEED="0",
+    env = dict(os.environ, DSIM_SRC=os.path.join(d, "src"), PYTHONPATH=os.path.join(d, "src"), PYTHONHASHSEED="0", DSIM_REPLAY_DIR=os.path.join(d, "replays"),
                PYTHONDONTWRITEBYTECODE="1")
     r = subprocess.run([os.path.join(VERIF, "check"), prop, "--tier", "quick", "--budget", str(budget), "--seed", str(seed),
                         "--no-evidence", "--no-min"], env=env, capture_output=True, text=True, timeout=budget + 400)
